@@ -23,33 +23,7 @@ Require Import Lia.
 Open Scope nat_scope.
 
 (* ------------------------------------------------------------------ 1. the class *)
-Fixpoint wx_value (v : value) : bool :=
-  match v with
-  | VScalar _ _ => true
-  | VObject fs tl => wx_fields fs && values_empty tl
-  | VArray items => wx_items items
-  | VArrayKv items kvs => first_item_scalar items && wx_items items && kvs_nonempty kvs && wx_kvs kvs
-  | VHeader _ v => is_container v && wx_value v
-  end
-with wx_field (f : field) : bool :=
-  match f with
-  | Field _ _ _ v => wx_value v
-  | ParamV _ _ _ => false
-  | ParamO _ _ fs => negb (fields_empty fs) && wx_fields fs
-  end
-with wx_fields (fs : fields) : bool :=
-  match fs with FNil => true | FCons f r => wx_field f && wx_fields r end
-with wx_items (vs : values) : bool :=
-  match vs with VNil => true | VCons v r => negb (is_header v) && wx_value v && wx_items r end
-with wx_kvs (kvs : fields) : bool :=
-  match kvs with
-  | FNil => true
-  | FCons f r =>
-      match f with
-      | Field _ _ op v => kv_op op && negb (is_header v) && wx_value v && wx_kvs r
-      | _ => false
-      end
-  end.
+(* wx_* : WriterMix.v (executable: the oracles evaluate it on the generated documents) *)
 
 (* ------------------------------------------------------------------ 2. the chunks *)
 Definition kvgap (lost : bool) : bytes := if lost then [SP] else [].
